@@ -576,6 +576,45 @@ fn read_checks<S: Surface<Item = u32>>(s: &S, m: &Model, env: &mut Env) -> Resul
             m.cells[*off]
         );
     }
+    // the iterator's own account of where it is: position()/index() before every item and at the end
+    {
+        let mut it = s.iter();
+        for i in 0..=lin.len() {
+            let want = if i < lin.len() {
+                Position::new(i / m.w, i % m.w)
+            } else {
+                Position::new(m.h, 0)
+            };
+            ensure!(
+                it.index() == i && (m.h * m.w == 0 || it.position() == want),
+                "iter:position-accessor",
+                "before item {i} of {}: index() = {}, position() = {}, expected {i} and {}",
+                lin.len(),
+                it.index(),
+                pos_str(it.position()),
+                pos_str(want)
+            );
+            if it.next().is_none() {
+                break;
+            }
+        }
+    }
+    // content hash: a function of the window (size and cells in row-major order), not of the buffer
+    // it lives in - an owned copy and a surface built cell by cell from the model hash the same
+    {
+        let own = s.to_owned_surf().hash();
+        let fresh = SurfaceOwned::new_with(Size::new(m.h, m.w), |pos| m.cells[m.at(pos.row, pos.col).unwrap()]).hash();
+        ensure!(
+            s.hash() == own && (m.h * m.w == 0 || own == fresh),
+            "hash:depends-on-more-than-the-window",
+            "hash() of the {}x{} window = {:#x}, of its owned copy = {:#x}, of an equal surface built from scratch = {:#x}",
+            m.h,
+            m.w,
+            s.hash(),
+            own,
+            fresh
+        );
+    }
     // with_position
     let mut count = 0;
     for (i, (pos, item)) in s.iter().with_position().take(lin.len() + 1).enumerate() {
